@@ -436,6 +436,16 @@ func (c *vfC09Case) hook() {
 			}
 		}
 	}
+	if c.win.kind == "deliver" || c.win.kind == "read" {
+		// A gateway action of the same node cannot run while the enclosing one sits in the sequence
+		// allocator's critical section (Incr of _sync:seq under its mutex) - it would simply wait. Gateway
+		// actions are therefore only placed before storage operations on the document itself.
+		tr := c.w.MarkedTrace()
+		if len(tr) == 0 || tr[len(tr)-1].Key != key {
+			c.winNote = "none(gateway action not placed before an operation on another key)"
+			return
+		}
+	}
 	switch c.win.kind {
 	case "extSet", "extDel", "extXattr", "extBoth":
 		if lin, ok := c.extWrite(key, c.win.kind, c.win.body, c.win.x); ok {
@@ -888,7 +898,7 @@ func (c *vfC09Case) actPut(rt *rapid.T) {
 			c.rec.Excluded(vfC09SigDelExtUpd)
 			return
 		}
-		if win != nil && win.kind == "extSet" {
+		if win != nil && (win.kind == "extSet" || win.kind == "extXattr" || win.kind == "extBoth") {
 			c.rec.Excluded(vfC09SigDelExtUpd + " (external update inside a gateway delete's window)")
 			win = nil
 		}
